@@ -16,7 +16,9 @@ RULE = ("Random G-core programs (definitions sent in a first request, the top-le
         "evaluation (step T + n after n earlier interrupts); the final top-level expression is a literal, a "
         "parenthesised expression, an operator or a call. Injection: the guarded hook stores `true` into the session's own "
         "`interrupted` flag when the global step counter reaches a listed value; the real check-and-restore code then "
-        "runs unmodified. After each `interrupted` reply the harness sends `:resume`. Oracle: concatenated printed "
+        "runs unmodified. Second population: one run request holding 1..2 `test` blocks and 1..4 top-level statements in "
+        "any order (the tests run first), every step of both phases being an interrupt point. "
+        "After each `interrupted` reply the harness sends `:resume`. Oracle: concatenated printed "
         "output and the final value / error (message and position) equal those of the uninterrupted run, and exactly "
         "the planned number of interrupts is reported. Non-trivial = the program prints both before and after the "
         "interrupt point; distinct = distinct (program, plan).")
@@ -71,6 +73,42 @@ def gen(r):
         plans.append(pts)
     return {"defs": "\n\n".join(defs) if defs else "let unused_def_marker = 0", "main": "\n".join(body),
             "plans": plans, "tail_picks": [r.int(1, 1000) for _ in range(3)], "features": sorted(G.features(prog))}
+
+
+TESTS_SIG = "interrupt inside a `test` block of a run request: the rest of the request is never evaluated after :resume"
+
+
+SUMMARY_SIG = "interrupt after the `test` blocks of a run request: the test summary is missing from the final result"
+
+
+def gen_with_tests(r):
+    """a run request that holds `test` blocks as well as top-level expressions: the tests run first, then the
+    expressions; every step of both phases is an interrupt point"""
+    defs = "fun work(n: Int): Int {\n  let i = 0\n  while i < n {\n    i += 1\n  }\n  i\n}"
+    items = []
+    nt = r.int(1, 2)
+    for t in range(nt):
+        body = [f'println("T{t}-start")']
+        if r.bool():
+            body.append(f"let w{t} = work({r.int(0, 3)})")
+        body.append(r.choice([f"assert(work({r.int(1, 3)}) > 0)", f"assert(work(2) == {r.choice([2, 2, 5])})", "assert(True)"]))
+        body.append(f'println("T{t}-end")')
+        items.append(f"test t{t} {{\n  " + "\n  ".join(body) + "\n}")
+    nx = r.int(1, 4)
+    for x in range(nx):
+        items.append(r.choice([f'println("X{x}")', f'println(string_repr(work({r.int(0, 3)})))',
+                               f'let v{x} = work({r.int(1, 2)})\nprintln(string_repr(v{x} + {x}))']))
+    order = r.sample(list(range(len(items))), len(items))
+    main = "\n".join(items[i] for i in order)
+    main += "\n" + r.choice(["4242", "(4242)", "4000 + 242", "work(2)"])
+    plans = []
+    for _ in range(3):
+        pts = sorted({r.int(1, 120) for _ in range(r.int(2, 4))})
+        plans.append(pts)
+    # a failing assertion makes the test stop there: the last marker that is certainly printed by the tests phase
+    # does not exist then, so the phase is recognised by the first top-level output instead
+    return {"defs": defs, "main": main, "plans": plans, "tail_picks": [r.int(1, 1000) for _ in range(3)],
+            "features": ["tests-and-expressions"], "has_tests": True}
 
 
 def run_plan(ctx, case, points):
@@ -153,10 +191,42 @@ def check(case, ctx) -> Res:
                         f"interrupt points {points}\n--- uninterrupted output\n{b_printed}--- with interrupts\n{printed}"
                         f"--- program\n{prog_txt}"), n_int, before, after
         if not same_final(b_final, final):
+            if case.get("has_tests") and b_final and final and b_final[0] == final[0] == "value" \
+                    and b_final[1].startswith("Ran ") and b_final[1].endswith(f"evaluated to {final[1]}."):
+                return fail(SUMMARY_SIG, f"interrupt points {points}\n  uninterrupted: {b_final}\n  with interrupts: {final}\n"
+                                         f"--- program\n{prog_txt}"), n_int, before, after
             return fail("final result changed by an interrupt + resume",
                         f"interrupt points {points}\n  uninterrupted: {b_final}\n  with interrupts: {final}\n"
                         f"--- program\n{prog_txt}"), n_int, before, after
         return None, n_int, before, after
+
+    known_hit = [None]
+    summary_hit = [None]
+    # what the uninterrupted run prints while its tests run: everything before the first top-level output
+    tests_phase_out = None
+    if case.get("has_tests"):
+        cut = len(b_printed)
+        for line_start in [i for i in range(len(b_printed)) if i == 0 or b_printed[i - 1] == "\n"]:
+            if not b_printed[line_start:].startswith("T"):
+                cut = line_start
+                break
+        tests_phase_out = b_printed[:cut]
+
+    def decide(bad, n_int, before):
+        """a mismatch whose first interrupt fell while the request's tests were running has one root cause (the
+        remaining tests and the top-level expressions are kept in Rust locals, not on the resumable stack): it is
+        remembered under its own signature and the exploration of the later steps goes on"""
+        if bad is not None and tests_phase_out is not None and n_int >= 1 and len(before) <= len(tests_phase_out) \
+                and tests_phase_out.startswith(before):
+            if known_hit[0] is None:
+                known_hit[0] = fail(TESTS_SIG, bad.detail)
+            return None
+        if bad is not None and bad.signature == SUMMARY_SIG:
+            # same family (the request's bookkeeping is not on the resumable stack): remembered, exploration goes on
+            if summary_hit[0] is None:
+                summary_hit[0] = bad
+            return None
+        return bad
 
     while k <= limit:
         sr = run_plan(ctx, case, [k])
@@ -164,6 +234,7 @@ def check(case, ctx) -> Res:
             return Res(ok=True, inconclusive=True, detail=f"timeout with interrupt at step {k}\n{prog_txt}")
         evals += 1
         bad, n_int, before, after = compare([k], sr, None)
+        bad = decide(bad, n_int, before)
         if bad is not None:
             return bad
         if n_int == 0:
@@ -196,6 +267,7 @@ def check(case, ctx) -> Res:
             return Res(ok=True, inconclusive=True, detail=f"timeout with interrupts at {plan}\n{prog_txt}")
         evals += 1
         bad, n_int, before, after = compare(plan, sr, None)
+        bad = decide(bad, n_int, before)
         if bad is not None:
             return bad
         cls.append("final-step-plan")
@@ -208,16 +280,23 @@ def check(case, ctx) -> Res:
             return Res(ok=True, inconclusive=True, detail=f"timeout with interrupts at {pts}\n{prog_txt}")
         evals += 1
         bad, n_int, before, after = compare(pts, sr, None)
+        bad = decide(bad, n_int, before)
         if bad is not None:
             return bad
         cls.append("multi-point-plan")
         if before and after:
             nt += 1
-    return Res(ok=True, nontrivial=nt > 0, classes=tuple(cls), extra=evals)
+    if known_hit[0] is not None and summary_hit[0] is not None:
+        return summary_hit[0] if len(case["main"]) % 2 == 0 else known_hit[0]
+    if known_hit[0] is not None or summary_hit[0] is not None:
+        return known_hit[0] or summary_hit[0]
+    return Res(ok=True, nontrivial=nt > 0, classes=tuple(cls + (["tests-and-expressions"] if case.get("has_tests") else [])),
+               extra=evals)
 
 
 def show(case):
     return case.get("main", "")
 
 
-SUBS = [Sub("every-step", check, gen=gen, cases={"quick": 32, "thorough": 400}, show=show)]
+SUBS = [Sub("every-step", check, gen=gen, cases={"quick": 32, "thorough": 400}, show=show),
+        Sub("tests-and-expressions", check, gen=gen_with_tests, cases={"quick": 16, "thorough": 200}, show=show)]
